@@ -35,6 +35,10 @@ def main():
     tier = os.environ.get("MUTANT_TIER", "quick")
     muts = json.load(open(os.path.join(ROOT, "mutants", pid + ".json")))
     results = []
+    # MUTANT_BASE_OVERLAY: an overlay (e.g. a not yet committed fix) every mutant is applied on top of
+    base = {}
+    if os.environ.get("MUTANT_BASE_OVERLAY"):
+        base = json.load(open(os.environ["MUTANT_BASE_OVERLAY"]))["Replace"]
     for m in muts:
         if flt and flt not in m["name"]:
             continue
@@ -46,13 +50,15 @@ def main():
             for e in edits:
                 e = dict(e); e.setdefault("name", m["name"])
                 path = os.path.join(REPO, e["file"])
-                src = bysrc.get(path) or open(path).read()
+                src = bysrc.get(path) or open(base.get(path, path)).read()
                 bysrc[path] = apply(src, e)
             for i, (path, src) in enumerate(bysrc.items()):
                 out = os.path.join(tmp, "%d_%s" % (i, os.path.basename(path)))
                 open(out, "w").write(src)
                 repl[path] = out
             ov = os.path.join(tmp, "overlay.json")
+            for k, v in base.items():
+                repl.setdefault(k, v)
             json.dump({"Replace": repl}, open(ov, "w"))
             env = dict(os.environ, VERIF_OVERLAY=ov, VERIF_OUT_DIR=os.path.join(tmp, "out"))
             t0 = time.time()
